@@ -638,6 +638,8 @@ fn abort_signature(desc: &str, stderr: &str, text: &str, include_cycle: bool) ->
     let depth = soup::nesting_depth(text);
     let shape = if huge_bind_group(text) {
         "huge-bind-group-index"
+    } else if self_containing_struct(text) {
+        "self-containing-struct"
     } else if include_cycle {
         "include-cycle"
     } else if depth > 400 {
@@ -666,6 +668,47 @@ fn huge_bind_group(text: &str) -> bool {
             if huge {
                 return true;
             }
+        }
+    }
+    false
+}
+
+/// `struct S { ... S ... }`: a struct whose body mentions its own name as a member type (infinitely large; recorded finding)
+fn self_containing_struct(text: &str) -> bool {
+    let mut rest = text;
+    while let Some(i) = rest.find("struct ") {
+        rest = &rest[i + 7..];
+        let name: String = rest.trim_start().chars().take_while(|c| c.is_alphanumeric() || *c == '_').collect();
+        if name.is_empty() {
+            continue;
+        }
+        let Some(open) = rest.find('{') else { break };
+        // body up to the matching brace
+        let mut depth = 0i32;
+        let mut end = rest.len();
+        for (k, c) in rest[open..].char_indices() {
+            match c {
+                '{' => depth += 1,
+                '}' => {
+                    depth -= 1;
+                    if depth == 0 {
+                        end = open + k;
+                        break;
+                    }
+                }
+                _ => {}
+            }
+        }
+        let body = &rest[open + 1..end];
+        let mut search = body;
+        while let Some(j) = search.find(&name) {
+            let before = search[..j].chars().last();
+            let after = search[j + name.len()..].chars().next();
+            let word = |c: Option<char>| c.map(|c| c.is_alphanumeric() || c == '_').unwrap_or(false);
+            if !word(before) && !word(after) {
+                return true;
+            }
+            search = &search[j + name.len()..];
         }
     }
     false
